@@ -283,7 +283,9 @@ func verifHarness_C07_session() { vC07Session(false) }
 func verifHarness_C07_sessionSchedules() { vC07Session(true) }
 
 func vC07Session(schedules bool) {
-	if schedules || vTier() > 0 {
+	// canonical schedule over every configuration (thorough: two coordinator faults); every
+	// schedule within one delay over a reduced configuration set
+	if schedules {
 		vConfig("delay", 1)
 	} else {
 		vConfig("delay", 0)
@@ -299,9 +301,12 @@ func vC07Session(schedules bool) {
 	conf.Metadata.Retry.Max = 1
 	conf.Metadata.Retry.Backoff = 0
 	co := &vCoord{committed: map[int32]int64{}, faults: 1 + vTier(), leader: vChoose("leader", 2) == 1}
-	if schedules && vTier() == 0 {
-		vAssume(!co.leader)
-		co.faults = 0
+	if schedules {
+		// quick: a follower and no coordinator fault; thorough: leader or follower, one fault
+		co.faults = vTier()
+		if vTier() == 0 {
+			vAssume(!co.leader)
+		}
 	}
 	switch vChoose("assignment", 3) {
 	case 1:
@@ -311,7 +316,7 @@ func vC07Session(schedules bool) {
 	}
 	co.parts = []int32{0, 1}
 	committed0 := vChoose("committed0", 4) // none, a valid offset, an out-of-range offset, a valid offset + a passing error when the claim is opened
-	if schedules && vTier() == 0 {
+	if schedules {
 		vAssume(committed0 == 1 && len(co.assign) <= 1)
 	}
 	fc := &vFakeConsumer{outOfRange: map[int64]bool{}, transient: map[int64]int{}}
